@@ -18,7 +18,7 @@ import json, os, queue, re, shutil, subprocess, sys
 from concurrent.futures import ThreadPoolExecutor
 
 ENV = dict(os.environ, GOFLAGS="-mod=mod", GOPROXY="off", GOSUMDB="off", GOTOOLCHAIN="local")
-SLOTS = "/tmp/seedv"
+SLOTS = os.environ.get("SEEDV_SLOTS", "/tmp/seedv")
 DIRS = r"(client|frame|message|primitive|segment|datacodec|datatype|crc|compression/lz4|compression/snappy)"
 RELATED = {
     "C01": ["C01", "C02", "C05"], "C02": ["C02", "C01"], "C03": ["C03", "C02"], "C04": ["C04"], "C05": ["C05", "C18"],
@@ -132,7 +132,7 @@ def triage(src, tag, only):
             sid = "%s%s-%s" % (pid, var, tag)
             if os.path.exists(os.path.join(mdir, "patch.diff")) and (not only or sid in only or pid in only):
                 jobs.append((mdir, sid, pid))
-    nslots = 3
+    nslots = max(1, min(3, len(jobs)))
     os.makedirs(SLOTS, exist_ok=True)
     for s in range(nslots):
         sh("git worktree remove --force %s/slot-%d" % (SLOTS, s), cwd="/repo")
@@ -164,9 +164,14 @@ def triage(src, tag, only):
         for s in range(nslots):
             sh("git worktree remove --force %s/slot-%d" % (SLOTS, s), cwd="/repo")
         shutil.rmtree(SLOTS, ignore_errors=True)
-        sh("rm -rf /verif/.build/alt-*")
+        if "SEEDV_SLOTS" not in os.environ:
+            sh("rm -rf /verif/.build/alt-*")
     os.makedirs("/verif/seeded", exist_ok=True)
-    json.dump(results, open("/verif/seeded/results-%s.json" % tag, "w"), indent=1)
+    rp = "/verif/seeded/results-%s.json" % tag
+    old = []
+    if os.path.exists(rp):  # several triage invocations of one round (SEEDV_SLOTS apart) add to one file
+        old = [r for r in json.load(open(rp)) if r.get("id") not in {x.get("id") for x in results}]
+    json.dump(sorted(old + results, key=lambda r: r.get("id", "")), open(rp, "w"), indent=1)
 
 
 def final(only):
